@@ -9,11 +9,13 @@ _COMMENT = re.compile(r'^\s*(?:#.*)?$')
 BLANKS = [' ', '  ', '\t', ' \t', '   ']
 
 
-def respell_line(line, rnd, p=0.35):
+def respell_line(line, rnd, p=0.35, asyncs=True):
     if _COMMENT.match(line) or _INCLUDE.match(line) or line.rstrip().endswith('\\'):
         return line
     body = line.lstrip()
     lead = line[:len(line) - len(body)]
+    if asyncs and re.match(r'function\s', body) and rnd.random() < 0.3:
+        body = 'async ' + body  # an async function is called like any other in this implementation
     toks = [t.group(0) for t in _TOKEN.finditer(body)]
     if any(len(t) == 1 and t in '\'"[' for t in toks):
         return line  # an unbalanced quote / bracket on this line: leave it alone
@@ -59,5 +61,5 @@ def _may_insert(a, b):
     return not (a[-1:].isalnum() or a[-1:] == '_') or not (b[:1].isalnum() or b[:1] == '_')
 
 
-def respell(text, rnd, p=0.35):
-    return '\n'.join(respell_line(ln, rnd, p) for ln in text.split('\n'))
+def respell(text, rnd, p=0.35, asyncs=True):
+    return '\n'.join(respell_line(ln, rnd, p, asyncs) for ln in text.split('\n'))
